@@ -1667,6 +1667,7 @@ chkpnt(void)
 		if ((rc = chkpnta()) >= 0) {
 			/* all checkpoints cleared */
 			ichkpnts = 0U;
+			NEDTRIE_INIT(&chkpntr);
 		}
 		return rc;
 	}
@@ -1682,6 +1683,11 @@ chkpnt(void)
 			}
 		}
 		ichkpnts = nfail;
+		/* the index follows the list */
+		NEDTRIE_INIT(&chkpntr);
+		for (size_t i = 0U; i < nfail; i++) {
+			NEDTRIE_INSERT(ndtr_t, &chkpntr, chkpnts + i);
+		}
 	}
 	return rc;
 }
